@@ -275,7 +275,17 @@ pub fn run_edit(c: &mut Ctx, count: usize, quot_heavy: bool) {
         for _ in 0..steps {
             let nn = f.hypergraph.nodes.len();
             let ne = f.hypergraph.edges.len();
-            let pick = if quot_heavy { *c.rng.pick(&[0usize, 2, 5, 5, 5, 12, 12, 12, 12, 13, 14, 6]) } else { c.rng.below(18) };
+            let pick = if quot_heavy {
+                *c.rng.pick(&[0usize, 2, 5, 5, 5, 12, 12, 12, 12, 13, 14, 6])
+            } else {
+                // the editing group (C11) makes no quotient calls: those belong to C09
+                match c.rng.below(18) {
+                    12 => 5,
+                    13 => 3,
+                    14 => 6,
+                    k => k,
+                }
+            };
             let op = match pick {
                 0 | 1 => list(vec![sym("new_node"), n(c.rng.below(3))]),
                 2 => {
